@@ -47,9 +47,9 @@ func checkC12(ctx *Ctx, r *Report, tier string) {
 		ruleWaitGroupPairing(r, "G4", gs)
 	}
 	r.Counts["draining_goroutines"] = nSinks
-	r.floor("G1", 6)
-	r.floor("G2", 6)
-	r.floor("G4", 10)
+	r.floor("G1", 3)
+	r.floor("G2", 3)
+	r.floor("G4", 4)
 	r.expectControl("G1", "verifCtlSinkEarlyReturn")
 	r.expectControl("G2", "verifCtlWorkersPerCall")
 	r.expectControl("G4", "verifCtlSinkNoDone")
@@ -66,7 +66,7 @@ func checkC12(ctx *Ctx, r *Report, tier string) {
 		}
 	}
 	r.Counts["sink_creations"] = n
-	r.floor("G5", 5*3)
+	r.floor("G5", 6)
 	r.expectControl("G3", "verifCtlToNoReturnOnError")
 	r.expectControl("G5", "verifCtlToWaitBeforeClose")
 }
@@ -95,10 +95,18 @@ func sinkCreations(fn *ssa.Function) []sinkCreation {
 			return
 		}
 		f := c.Call.StaticCallee()
-		if f == nil || !inModule(f) {
+		if f != nil && !inModule(f) {
 			return
 		}
-		res := f.Signature.Results()
+		if c.Call.IsInvoke() {
+			return
+		}
+		// a sink may also be started through a function value (a writer passed as parameter)
+		sig, ok := c.Call.Value.Type().Underlying().(*types.Signature)
+		if !ok {
+			return
+		}
+		res := sig.Results()
 		switch {
 		case res.Len() == 1 && isSinkChan(res.At(0).Type()):
 			out = append(out, sinkCreation{call: c, ch: c})
@@ -119,6 +127,13 @@ func sinkCreations(fn *ssa.Function) []sinkCreation {
 	return out
 }
 
+func sinkCalleeName(sc sinkCreation) string {
+	if f := sc.call.Call.StaticCallee(); f != nil {
+		return f.Name()
+	}
+	return "(writer function value)"
+}
+
 func mayReturnError(f *ssa.Function) bool {
 	for _, ret := range returnsOf(f) {
 		if len(ret.Results) == 0 {
@@ -134,10 +149,11 @@ func mayReturnError(f *ssa.Function) bool {
 }
 
 func ruleSinkUse(ctx *Ctx, r *Report, fn *ssa.Function, sc sinkCreation) {
+	calleeName := sinkCalleeName(sc)
 	callee := sc.call.Call.StaticCallee()
-	key := fmt.Sprintf("%s|%s", shortFn(fn), callee.Name())
-	// G3
-	if sc.err != nil && mayReturnError(callee) {
+	key := fmt.Sprintf("%s|%s", shortFn(fn), calleeName)
+	// G3 (a writer reached through a function value may fail, as far as this function knows)
+	if sc.err != nil && (callee == nil || mayReturnError(callee)) {
 		if sc.ch == nil {
 			r.check("G3", key+"|channel-unused", sc.call.Pos(), true, "channel result discarded")
 		} else {
@@ -164,10 +180,10 @@ func ruleSinkUse(ctx *Ctx, r *Report, fn *ssa.Function, sc sinkCreation) {
 				}
 			}
 			r.check("G3", key+"|channel-used-only-when-creation-succeeded", sc.call.Pos(), bad == "",
-				"when "+callee.Name()+" fails its channel is nil; a send on a nil channel blocks forever. Uses not guarded by err == nil:"+bad)
+				"when "+calleeName+" fails its channel is nil; a send on a nil channel blocks forever. Uses not guarded by err == nil:"+bad)
 		}
 	} else if sc.err != nil {
-		r.check("G3", key+"|creation-cannot-fail", sc.call.Pos(), true, callee.Name()+" returns a nil error on every path: obligation vacuous today")
+		r.check("G3", key+"|creation-cannot-fail", sc.call.Pos(), true, calleeName+" returns a nil error on every path: obligation vacuous today")
 	}
 	if sc.ch == nil {
 		return
